@@ -367,6 +367,17 @@ pub enum Kind {
     TimerFire {
         id: u64,
     },
+    /// the embedder's timer asks the library whether `deadline` has been reached at `now`
+    /// (at arm time and when the timer future resolves)
+    TimerCmp {
+        id: u64,
+        phase: String,
+        #[serde(serialize_with = "ser_i128")]
+        now_wall: i128,
+        now_mono: i64,
+        deadline: TimeRec,
+        lib: bool,
+    },
     OpCancel {
         label: String,
     },
